@@ -185,6 +185,22 @@ var syslKeywords = []string{"alt", "as", "else", "float32", "float64", "for", "f
 	"return", "sequenceof", "setof", "until", "while"}
 var httpVerbs = []string{"GET", "POST", "DELETE", "PUT", "PATCH", "OPTIONS", "HEAD", "TRACE"}
 
+// nativeDataTypes are the type words the Sysl lexer reads as NativeDataTypes (in any case). In a query parameter
+// only these can be written bare; any other type name - including builtin type names the grammar has no native
+// type for, such as uuid - must be written in braces to be read as a type at all.
+var nativeDataTypes = []string{"int32", "int64", "int", "float32", "float64", "float", "string", "date", "bool",
+	"decimal", "datetime", "bytes", "any"}
+
+func isNativeDataType(name string) bool {
+	lower := strings.ToLower(name)
+	for _, n := range nativeDataTypes {
+		if lower == n {
+			return true
+		}
+	}
+	return false
+}
+
 // isSyslKeyword reports whether the lexer would not read name as a Name although it is spelled like one.
 func isSyslKeyword(name string) bool {
 	lower := strings.ToLower(name)
